@@ -44,7 +44,9 @@ func (st *State) doCall(in *ssa.Call, b *ssa.BasicBlock, idx int) bool {
 	ord := vc.ordinals[in]
 	vc.callOrd[in] = ord
 	name := calleeName(c)
+	st.callArgs = args
 	vc.runGhost(st, "before call", name, ord)
+	st.callArgs = nil
 	// inline candidate?
 	var devTargs []types.Type
 	var devirt *ssa.Function
